@@ -545,3 +545,31 @@ Proof. intros [A _]. unfold be_chmod, be_meta. rewrite A. reflexivity. Qed.
 Lemma be_chown_plain fs p o u g : plain fs p o ->
   be_chown fs p u g = (fs_upd fs p (fun o => set_meta o (o_perm o) u g (o_mtime o)), Ok tt).
 Proof. intros [A _]. unfold be_chown, be_meta. rewrite A. reflexivity. Qed.
+
+(* ====================================================================================================== *)
+(* 6. crash: the volatile contents of every regular file are replaced by the durable ones                 *)
+(* ====================================================================================================== *)
+Lemma fs_get_crash fs p :
+  fs_get (be_crash fs) p =
+  match fs_get fs p with
+  | Some o => Some (match o_kind o with KFile => crash_obj o | _ => o end)
+  | None => None
+  end.
+Proof.
+  induction fs as [|[k o] r IH]; [reflexivity|]. unfold be_crash in *. cbn [map fst snd fs_get].
+  destruct (o_kind o) eqn:K; cbn [fs_get fst]; destruct (path_eqb p k); try exact IH; rewrite ?K; reflexivity.
+Qed.
+(* no key appears or disappears; directories and symlinks are untouched; a regular file keeps kind,
+   permissions, owner, mtime and gets (size, bytes) := its durable (size, bytes) *)
+Lemma be_crash_frame fs p :
+  match fs_get fs p with
+  | None => fs_get (be_crash fs) p = None
+  | Some o => exists oc, fs_get (be_crash fs) p = Some oc /\
+                o_kind oc = o_kind o /\ o_perm oc = o_perm o /\ o_uid oc = o_uid o /\ o_gid oc = o_gid o /\
+                o_mtime oc = o_mtime o /\ o_target oc = o_target o /\
+                (o_kind o <> KFile -> oc = o) /\ (o_kind o = KFile -> file_of oc = durable_of o /\ durable_of oc = durable_of o)
+  end.
+Proof.
+  rewrite fs_get_crash. destruct (fs_get fs p) as [o|]; [|reflexivity].
+  eexists. split; [reflexivity|]. destruct (o_kind o) eqn:K; cbn; rewrite ?K; repeat split; congruence.
+Qed.
